@@ -10,6 +10,7 @@
 //	sess v<2..5> <consumer> <prefetch> <pagesize> <q|x|xs> <first> <script>
 //	  consumer  scan | scanner | mapscan | slicemap | manual (PageState loop, auto paging disabled)
 //	  q         unprepared (QUERY)   x  prepared, NoSkipMetadata (EXECUTE)   xs  prepared, skip-metadata
+//	            xd  prepared, cfg.DisableSkipMetadata
 //	  first     caller-supplied page state of the first request (manual only): `.` none, `-` empty, hex
 //	  script    `;`-separated replies:  <rows>:<state>   rows `-` or i,j,k ; state `.` = no more pages,
 //	            `-` = has_more_pages with an EMPTY paging state, hex otherwise
@@ -278,11 +279,18 @@ func runSess(sc scen) (answer string, spurious bool) {
 		}
 	}
 	cfg.ConnectTimeout = 20 * time.Second
+	cfg.DisableSkipMetadata = sc.kind == "xd"
 	s, err := cfg.CreateSession()
 	if err != nil {
 		return "fatal:" + err.Error(), false
 	}
 	defer s.Close()
+	if sc.pageSize == 3 {
+		s.SetPageSize(3)
+	}
+	if sc.prefetch == "0.5" {
+		s.SetPrefetch(0.5)
+	}
 	if !sess.WaitConns(s, 1, 10*time.Second) {
 		return "fatal:no connection", false
 	}
@@ -297,12 +305,19 @@ func runSess(sc scen) (answer string, spurious bool) {
 			q = s.Query(stmtPlain)
 		case "x":
 			q = s.Query(stmtPrepared, 7).NoSkipMetadata()
-		case "xs":
+		case "xs", "xd":
 			q = s.Query(stmtPrepared, 7)
 		default:
 			panic("bad kind")
 		}
-		return q.WithContext(ctx).PageSize(sc.pageSize).Prefetch(pf)
+		// page size 5000 and prefetch 0.25 are the session defaults; 3 and 0.5 are set on the session
+		if sc.pageSize != 5000 && sc.pageSize != 3 {
+			q = q.PageSize(sc.pageSize)
+		}
+		if sc.prefetch != "0.25" && sc.prefetch != "0.5" {
+			q = q.Prefetch(pf)
+		}
+		return q.WithContext(ctx)
 	}
 	type result struct {
 		rows []int
@@ -414,3 +429,248 @@ func execSess(op string) string {
 }
 
 var _ = bytes.Equal
+
+// ---------- generation ----------
+
+var (
+	consumersS = []string{"scan", "scanner", "mapscan", "slicemap", "manual"}
+	prefetches = []string{"0", "0.25", "0.5", "1", "1.5", "-1"}
+	pageSizes  = []int{0, -1, 1, 2, 3, 10, 100, 5000, 2147483647}
+	kinds      = []string{"q", "x", "xs", "xd"}
+	srvCodes   = []int{0x0000, 0x1000, 0x1001, 0x1002, 0x1003, 0x1100, 0x1200, 0x2000, 0x2100, 0x2200, 0x2300}
+)
+
+type sgen struct {
+	r    *vh.Rng
+	next int
+}
+
+func (g *sgen) rows(n int) []int32 {
+	out := make([]int32, n)
+	for i := range out {
+		g.next++
+		v := int32(g.next)
+		if g.r.Intn(6) == 0 {
+			v = -v
+		}
+		out[i] = v
+	}
+	return out
+}
+
+func (g *sgen) nrows() int {
+	switch g.r.Intn(8) {
+	case 0, 1:
+		return 0
+	case 2:
+		return 1
+	case 3:
+		return g.r.Intn(40)
+	}
+	return g.r.Intn(5)
+}
+
+// state: a non-nil paging state; empty only if allowed
+func (g *sgen) state(prev []byte, allowEmpty bool) []byte {
+	if allowEmpty && g.r.Intn(3) == 0 {
+		return []byte{}
+	}
+	switch g.r.Intn(48) {
+	case 1, 2, 3:
+		if len(prev) > 0 {
+			return append([]byte{}, prev...) // the same state twice in a row
+		}
+	case 4, 5, 6:
+		return []byte{0}
+	case 7, 8:
+		return g.r.Bytes(200 + g.r.Intn(800))
+	case 9:
+		if g.r.Intn(10) == 0 {
+			return g.r.Bytes(65536 + g.r.Intn(100))
+		}
+	}
+	return g.r.Bytes(1 + g.r.Intn(10))
+}
+
+func (g *sgen) failure() reply {
+	switch g.r.Intn(8) {
+	case 0:
+		return reply{fail: "t"}
+	case 1, 2:
+		return reply{fail: "c"}
+	case 3, 4:
+		return reply{fail: "x"}
+	}
+	return reply{fail: "s", code: srvCodes[g.r.Intn(len(srvCodes))]}
+}
+
+func (g *sgen) base() scen {
+	sc := scen{op: "sess", ver: 2 + g.r.Intn(4), consumer: consumersS[g.r.Intn(len(consumersS))],
+		prefetch: prefetches[g.r.Intn(len(prefetches))], pageSize: pageSizes[g.r.Intn(len(pageSizes))], kind: kinds[g.r.Intn(len(kinds))]}
+	return sc
+}
+
+// finish classifies: a present-but-empty paging state anywhere (or as the caller's state) ⇒ sessx (KF-C15-1)
+func finish(sc scen) scen {
+	sc.op = "sess"
+	if sc.first != nil && len(sc.first) == 0 {
+		sc.op = "sessx"
+	}
+	for _, r := range sc.script {
+		if r.fail == "" && r.state != nil && len(r.state) == 0 {
+			sc.op = "sessx"
+		}
+	}
+	return sc
+}
+
+func (g *sgen) random() scen {
+	sc := g.base()
+	g.next = 0
+	allowEmpty := g.r.Intn(12) == 0
+	if sc.consumer == "manual" && g.r.Intn(3) == 0 {
+		sc.first = g.state(nil, allowEmpty)
+	}
+	np := 1 + g.r.Intn(5)
+	if g.r.Intn(8) == 0 {
+		np = 1 + g.r.Intn(14)
+	}
+	var prev []byte
+	emptyRun := g.r.Intn(6) == 0 // mostly empty pages
+	for p := 0; p < np-1; p++ {
+		if g.r.Intn(12) == 0 {
+			sc.script = append(sc.script, reply{fail: "u"})
+		}
+		n := g.nrows()
+		if emptyRun && g.r.Intn(4) > 0 {
+			n = 0
+		}
+		st := g.state(prev, allowEmpty)
+		prev = st
+		sc.script = append(sc.script, reply{rows: g.rows(n), state: st})
+	}
+	if g.r.Intn(12) == 0 {
+		sc.script = append(sc.script, reply{fail: "u"})
+	}
+	// terminal
+	switch g.r.Intn(10) {
+	case 0, 1, 2:
+		sc.script = append(sc.script, g.failure())
+	case 3:
+		// the script ends while has_more_pages is still set: the node answers `script exhausted`
+		if len(sc.script) == 0 {
+			sc.script = append(sc.script, reply{rows: g.rows(g.nrows()), state: g.state(prev, allowEmpty)})
+		}
+	default:
+		n := g.nrows()
+		if g.r.Intn(3) == 0 {
+			n = 0
+		}
+		sc.script = append(sc.script, reply{rows: g.rows(n)})
+	}
+	// replies that must never be asked for
+	if last := sc.script[len(sc.script)-1]; (last.fail != "" && last.fail != "u" || last.fail == "" && last.state == nil) && g.r.Intn(3) == 0 {
+		sc.script = append(sc.script, reply{rows: g.rows(1 + g.r.Intn(2)), state: g.state(prev, false)}, reply{rows: g.rows(1)})
+	}
+	return finish(sc)
+}
+
+// exhaustive: every list of <= maxMore pages with has_more_pages of 0..2 rows each, followed by a last
+// page of 0..2 rows or a failure (server error / closed / cancelled), for every consumer
+func (g *sgen) exhaustive(maxMore int, emit func(scen, string)) {
+	var rec func(prefix []int)
+	rec = func(prefix []int) {
+		for term := 0; term < 6; term++ {
+			for _, c := range consumersS {
+				sc := g.base()
+				sc.consumer = c
+				g.next = 0
+				for _, n := range prefix {
+					sc.script = append(sc.script, reply{rows: g.rows(n), state: g.r.Bytes(1 + g.r.Intn(4))})
+				}
+				switch term {
+				case 0, 1, 2:
+					sc.script = append(sc.script, reply{rows: g.rows(term)})
+				case 3:
+					sc.script = append(sc.script, reply{fail: "s", code: srvCodes[g.r.Intn(len(srvCodes))]})
+				case 4:
+					sc.script = append(sc.script, reply{fail: "c"})
+				case 5:
+					sc.script = append(sc.script, reply{fail: "x"})
+				}
+				emit(finish(sc), fmt.Sprintf("sess-exh/%s/more%d", c, len(prefix)))
+			}
+		}
+		if len(prefix) < maxMore {
+			for n := 0; n <= 2; n++ {
+				rec(append(append([]int{}, prefix...), n))
+			}
+		}
+	}
+	rec(nil)
+}
+
+func scenClass(sc scen) string {
+	term := "last"
+	empties := 0
+	mid := false
+	for i, r := range sc.script {
+		if r.fail == "" && len(r.rows) == 0 {
+			empties++
+			if r.state != nil && i > 0 {
+				mid = true
+			}
+		}
+	}
+	for _, r := range sc.script {
+		if r.fail != "" && r.fail != "u" {
+			term = "fail-" + r.fail
+			break
+		}
+		if r.fail == "" && r.state == nil {
+			break
+		}
+	}
+	e := "noempty"
+	if mid {
+		e = "empty-middle"
+	} else if empties > 0 {
+		e = "empty"
+	}
+	return fmt.Sprintf("%s/%s/v%d/%s/%s/%s", sc.op, sc.consumer, sc.ver, sc.kind, term, e)
+}
+
+func sessionTier(r *vh.Rng, out *vh.Out, tier string) {
+	g := &sgen{r: r}
+	type job struct {
+		sc  scen
+		cls string
+	}
+	var jobs []job
+	emit := func(sc scen, cls string) { jobs = append(jobs, job{sc, cls}) }
+	n, maxMore := 4000, 2
+	if tier == "thorough" {
+		n, maxMore = 120000, 3
+	}
+	g.exhaustive(maxMore, emit)
+	for i := 0; i < n; i++ {
+		sc := g.random()
+		emit(sc, scenClass(sc))
+	}
+	res := make([]string, len(jobs))
+	var wg sync.WaitGroup
+	sem := make(chan struct{}, 24)
+	for i := range jobs {
+		wg.Add(1)
+		sem <- struct{}{}
+		go func(i int) {
+			defer wg.Done()
+			defer func() { <-sem }()
+			res[i] = execSess(jobs[i].sc.String())
+		}(i)
+	}
+	wg.Wait()
+	for i, j := range jobs {
+		out.Case(j.sc.String(), res[i], j.cls, true)
+	}
+}
